@@ -17,15 +17,15 @@ CHECKS = {
   ref="3/C11"),
  "C12": dict(
   text="Bounded symbolic model checking of write_to_genbank / _build_base_record / _build_record_from_cross_origin / _adjust_features / _adjust_protocluster / _adjust_motif on a region (simple or origin-spanning) with a protocluster, candidate cluster, optional subregion, a gene (simple or origin-spanning on either strand) and a prepeptide-style motif, with symbolic coordinates and record length and - the point of doing it symbolically - symbolic record-wide numbers of the areas (any region of any record): the extract has the region's length, contains every feature shifted so that it covers the same bases (for all x), all numbers and cross references are renumbered from 1 consistently, core/leader locations are shifted with the region, and the full record's locations and qualifiers are unchanged afterwards.",
-  note="Object level only: SeqRecord slicing/concatenation is modelled on the feature table (FakeSeqRecord, following Biopython's documented behaviour), seqio.write is captured at call time; GenBank text and re-parsing are outside the claim. One candidate cluster per region.",
+  note="Object level only: SeqRecord slicing/concatenation is modelled on the feature table (FakeSeqRecord, following Biopython's documented behaviour), seqio.write is captured at call time; GenBank text and re-parsing are outside the claim. A second harness takes the region the real formation code builds from two protoclusters (several candidate clusters referring to several protoclusters, optionally origin-spanning, with a real prepeptide of leader, core and tail) with all record-wide numbers raised by symbolic offsets: numbers in the extract are 1..k and distinct, every reference resolves to the renumbered feature, leader / tail / core locations move with the region.",
   ref="3/C12"),
  "C13": dict(
   text="Bounded symbolic model checking of refine_hmmscan_results (both modes) with its helpers, of filter_results / filter_result_multiple and of hmmer.remove_overlapping on k <= 3 (quick) / 4 (thorough) hits with symbolic coordinates (ints) and scores / e-values (reals), every profile assignment over 2-3 profiles, every input order and every set-iteration numbering: results ordered by position, identical for every order, kept hits are inputs or spanning same-profile merges with best score, no two kept hits overlap beyond the margin, dropped hits have a better-ranked overlapping kept hit, one survivor per overlap group / profile.",
-  note="Profile lengths 15/35 and cutoffs 20/30 are concrete; set iteration order is modelled as harness-chosen (every order supplied); doubles that are nearest to simple fractions are read as those fractions (DESIGN 1.4). Known finding C13-1 (greedy comparison against the last kept hit only) is reported as KNOWN-FINDING, anything outside its region is a violation.",
+  note="Profile lengths 15/35 and cutoffs 20/30 are concrete; set iteration order is modelled as harness-chosen (every order supplied); doubles that are nearest to simple fractions are read as those fractions (DESIGN 1.4). In `refine` the result must additionally equal an independent transcription of the documented rules (one-domain span < 1.5 profile lengths, overlap margin 20% of the longer profile, half / third completeness) executed on the same symbolic hits. Known finding C13-1 (greedy comparison against the last kept hit only) is reported as KNOWN-FINDING, anything outside its region is a violation.",
   ref="3/C13"),
  "C14": dict(
   text="Bounded symbolic model checking of build_modules_for_cds / Module.add_component / ensure_suitable / is_complete / to_json+from_json and combine_modules with every domain NAME symbolic over the full alphabet of CLASSIFICATIONS (~70 names; membership tests on the re-wrapped constant sets are decided by the solver, so paths are behaviour classes) and symbolic KS subtype: sequences of length <= 3 (quick, plus length-4 sequences starting with two carrier proteins) / 4 (thorough); construction never fails, domains partitioned in order without loss, every documented layout rule per module, is_complete iff documented, module rebuilt from its saved form identical; adjacent gene pairs: merge only on the same strand, only of an incomplete trailing module, only if the result is complete, all domains kept in order.",
-  note="Domain coordinates are fixed (increasing); get_monomer strings are not claimed; `str` is replaced inside the modules under test by a variant that leaves symbolic names symbolic.",
+  note="Domain coordinates are fixed (increasing); get_monomer strings are not claimed; the module merged over two genes is checked against the same layout rules; `str` is replaced inside the modules under test by a variant that leaves symbolic names symbolic.",
   ref="3/C14"),
  "C15": dict(
   text="Bounded symbolic model checking of scan_orfs on windows of concrete length <= 10 (quick) / 12 (thorough) whose every base is symbolic over {A,C,G,T,N,a,t,g}, both directions, symbolic offset (incl. negative: windows crossing the origin), record length and minimum length, against an independent reference scanner written as formulas over the codon predicates: every reported location is a real ORF and, extracted on its strand in part order, visits exactly the ORF's bases in reading order (for all positions t); every ORF is reported; and of find_intergenic_areas on <= 3 genes (nested/overlapping) with symbolic coordinates, padding and minimum length.",
@@ -37,15 +37,15 @@ CHECKS = {
   ref="3/C17"),
  "C19": dict(
   text="Bounded symbolic model checking of build_area_rows / pack / Row / adjust_cross_origin_area / Area on regions built by the real formation code from <= 2 protoclusters (core inside extent, extent and optionally core spanning the origin) and an optional subregion with symbolic coordinates and record length (linear, circular, origin-spanning and whole-record regions): every protocluster / shown candidate / subregion is drawn once or as two halves with the same group; same-row areas do not overlap; every extent lies in the announced range; a protocluster's core lies inside its extent; and for every genome position x the drawn extent and core, in drawing coordinates (positions after the origin shifted by the record length), are exactly the feature's extent and core.",
-  note="Genes (convert_cds_features) need the HTML description builders and are not explored; set iteration order pinned to hash(product); more than 2 protoclusters / 1 subregion outside the claim.",
+  note="Genes (convert_cds_features) need the HTML description builders and are not explored; set iteration order pinned to hash(product); more than 2 protoclusters / 1 subregion are covered only at the level of pack() (three areas, simple or origin-spanning, in the order Region.get_unique_protoclusters supplies them: every area on exactly one row, same-row areas disjoint).",
   ref="3/C19"),
  "C20": dict(
   text="Bounded symbolic checking of AntismashResults.write_to_file / dump_records with the position of the failing JSON conversion as a symbolic integer over every eager (module to_json) and late (converted while the text is produced) conversion of R <= 2 records x M <= 2 modules, plus 'no fault', against an in-memory file system in which opening for writing truncates: a fault is reported and the pre-existing file is byte-for-byte unchanged and never opened; without a fault the new JSON is written; and of prepare_output_directory over all 256 combinations of directory contents / run mode given as symbolic booleans: refuses iff foreign content and not reusing, a refusal changes nothing, only old region GenBank files are ever removed.",
   note="File system and os/glob are models (stubs listed in the evidence); real disks, partial writes and the ordering inside _run_antismash are outside the claim. The input space is finite; the solver's share is the case split on the symbolic fault position / flags and the per-path obligations.",
   ref="3/C20"),
  "C01": dict(
-  text="Bounded symbolic model checking of the real rule evaluator (DetectionRule.detect and every Conditions subclass) on condition trees parsed from text by the real Parser: for each enumerated tree (22 quick / ~150 thorough; not/and/or/groups/cds/minimum/minscore over 2 profiles) the evaluation at a gene with 2 neighbours is executed on symbolic gene coordinates, cutoff, record length, hit presence (booleans) and bitscores (reals), and z3 must answer unsat for path /\\ not(documented formula) for met, the reason profiles and the anchoring decision; distance-at-cutoff and across-origin cases are solver-chosen.",
-  note="Trees are enumerated (the programs axis is sampled, inputs are symbolic). Details.in_range is explored as a function summary (same code). 3 genes, 2 profiles; minscore inside cds() is outside the documented grammar and not claimed.",
+  text="Bounded symbolic model checking of the real rule evaluator (DetectionRule.detect and every Conditions subclass) on condition trees parsed from text by the real Parser: for each enumerated tree (22 quick / ~150 thorough; not/and/or/groups/cds/minimum/minscore over 2 profiles) the evaluation at a gene with 2 neighbours is executed on symbolic gene coordinates, cutoff, record length, hit presence (booleans) and bitscores (reals), and z3 must answer unsat for path /\\ not(documented formula) for met, the reason profiles and the anchoring decision; distance-at-cutoff and across-origin cases are solver-chosen. Plus the inductive step for trees of any depth: each combinator node (group / not-group over 1-3 or-operands, and-chain, cds / not cds around an operand, or-list or and-chain) with stub children whose results are arbitrary symbolic booleans per (gene, local flag), on 3 genes with symbolic geometry: the node returns the documented function of its children's results and exactly their reasons.",
+  note="Whole trees are enumerated (the programs axis is sampled, inputs are symbolic); arbitrary depth follows from the combinator step under the stated frame condition (a subtree's result depends only on the gene and the local flag). Details.in_range is explored as a function summary (same code). 3 genes, 2 profiles; minscore inside cds() is outside the documented grammar and not claimed.",
   ref="3/C01"),
  "C02": dict(
   text="Bounded symbolic model checking of the real Parser on the CONDITIONS section given as a stream of tokens whose KINDS are symbolic over the 13 condition token types (identifiers symbolic over {a,b,c,unknown}, integers over {0,1,2,3,150}): streams of <= 5 (quick) / 6 (thorough) fully symbolic tokens plus streams with a concrete opening (cds(, minscore(, minimum(2,, a and cds(, (a or, not (, not cds() and 4/5 symbolic tokens. An independent transcription of the documented grammar (not > and > or, groups, cds, minimum, minscore, rejection of unknown profiles, repeated operands, unbalanced groups, only-negative conditions, minimum count < 1) runs on the same symbolic stream in the same path; on every path: same accept/reject, the parsed tree has the same truth table as the reference tree, and the text regenerated from an accepted rule parses back (real tokeniser) to the same name, distances and meaning. Plus enumerated rule files for SUPERIORS closure, kilobase scaling with multipliers over several files, aliases as textual substitution and whitespace/comments.",
@@ -60,11 +60,11 @@ CHECKS = {
   note="Trusted: z3, CPython int/str round trip, the Biopython ExactPosition shim (identity on symbolic ints) and SimpleLocation.__len__ shim; more than 4 locations / 3 parts, fuzzy positions and mixed-strand compounds are outside the claim.",
   ref="3/C04"),
  "C05": dict(
-  text="Bounded symbolic model checking of create_candidates_from_protoclusters and its passes on Pn <= 3 (quick) / 4 (thorough) protoclusters (symbolic core inside symbolic extent, every sharing pattern, every supply order, linear and one origin-spanning protocluster on circular records) plus 5/7-protocluster unit layouts (hybrid pairs with identical coordinates): every protocluster in a candidate; candidate location = exact span of its members; sharing => same chemical hybrid; core overlap chain => same hybrid/interleaved candidate; extent overlap chain => some common candidate; members of each kind linked by the matching relation; singles for unabsorbed protoclusters unless identical coordinates; no duplicate (coordinates, membership); order independence.",
+  text="Bounded symbolic model checking of create_candidates_from_protoclusters and its passes on Pn <= 3 (quick) / 4 (thorough) protoclusters (symbolic core inside symbolic extent, every sharing pattern, every supply order, linear and one origin-spanning protocluster on circular records) plus 4/5/7-protocluster unit layouts (hybrid pairs with identical coordinates; hybrid + two lone protoclusters, two hybrids + one, ...): every protocluster in a candidate; candidate location = exact span of its members; sharing => same chemical hybrid; core overlap chain => same hybrid/interleaved candidate; extent overlap chain => some common candidate; members of each kind linked by the matching relation; singles for unabsorbed protoclusters unless identical coordinates; no duplicate (coordinates, membership); order independence.",
   note="Set iteration order of Protocluster sets is pinned to hash(product) (other orders via renamed products). Known finding C05-1 (promotion of equal-coordinate groups into the stronger candidate) is reported as KNOWN-FINDING. Pn > 4 only through the unit layouts.",
   ref="3/C05"),
  "C06": dict(
-  text="Bounded symbolic model checking of Record.create_regions / add_region / Region.__init__ on <= 3 (quick, plus one 4-area linear class) / 4 (thorough) areas (subregions and single-protocluster candidate clusters, simple or origin-spanning) with symbolic coordinates: creation never raises, regions are pairwise disjoint, two areas share a region iff linked by a chain of overlaps (unrolled closure), each region covers exactly the union of its component, numbering follows order; plus all add/clear/create histories of length <= 3 (quick) / 4 (thorough) checked for stale parent links.",
+  text="Bounded symbolic model checking of Record.create_regions / add_region / Region.__init__ on <= 3 (quick, plus a 4-area linear class and a 4-area ring class with an origin-spanning area) / 4 (thorough) areas (subregions and single-protocluster candidate clusters, simple or origin-spanning) with symbolic coordinates: creation never raises, regions are pairwise disjoint, two areas share a region iff linked by a chain of overlaps (unrolled closure), each region covers exactly the union of its component, numbering follows order; plus all add/clear/create histories of length <= 3 (quick) / 4 (thorough) checked for stale parent links.",
   note="Areas are subregions or candidate clusters with one protocluster (a multi-protocluster candidate still has one span); longer histories and more areas are outside the claim.",
   ref="3/C06"),
  "C07": dict(
@@ -72,7 +72,7 @@ CHECKS = {
   note="Rule evaluation itself is C01, grouping for 3-4 genes is C03, candidate/region stages on origin-spanning inputs are C05/C06; here: 2 genes, <= 3 rules, 2 distinct cutoffs, neighbourhood 0 in the rotation harness.",
   ref="3/C07"),
  "C08": dict(
-  text="Bounded symbolic model checking of Record.get_cds_features_within_location (G <= 3 quick / 4 thorough genes incl. nested, equal-start, spliced and origin-crossing genes; simple and origin-spanning queries; with_overlapping both) against the containment / shares-a-base spec per gene, and of the add_cds_feature / add_protocluster / add_subregion / create_regions interleavings (6 quick / 60 thorough orders) against 'each area lists exactly the genes it contains and each gene points to its region'.",
+  text="Bounded symbolic model checking of Record.get_cds_features_within_location (G <= 3 quick / 4 thorough genes incl. nested, equal-start, spliced and origin-crossing genes; simple and origin-spanning queries; with_overlapping both) against the containment / shares-a-base spec per gene, and of the add_cds_feature / add_protocluster / add_subregion / create_regions interleavings (6 quick / 60 thorough orders) against 'each area lists exactly the genes it contains and each gene points to its region'; and of 2 (quick) / 3 (thorough) subregions forming 1..3 regions with two genes added before, after or around create_regions (genes exactly at a region's start / equal to a region included): each gene points to exactly the region containing it and is listed there.",
   note="Coordinates and record length are unbounded symbolic ints; gene count, exon count (<= 2) and number of areas are bounded as stated.",
   ref="3/C08"),
 }
